@@ -599,4 +599,97 @@ theorem structMatch_spec (root : List Name) (segs : List Seg) (rel : List Name)
     | nil => simpa using hlead rfl
     | cons c r => simp [litSeg, leadingDstar]
 
+
+/-! ### helpers for the filter-level theorems -/
+
+theorem foldr_filter_iff (se : Name → Option Bool) : ∀ (cands l : List Name),
+    cands.foldr (fun m acc =>
+      match acc, se m with
+      | some l, some false => some (m :: l)
+      | some l, some true => some l
+      | _, _ => none) (some []) = some l →
+    ∀ m, m ∈ l ↔ m ∈ cands ∧ se m = some false
+  | [], l, h, m => by simp at h; subst h; simp
+  | c :: cands, l, h, m => by
+    simp only [List.foldr_cons] at h
+    generalize hacc : cands.foldr _ (some []) = acc at h
+    cases acc with
+    | none => simp at h
+    | some l' =>
+      have ih := foldr_filter_iff se cands l' hacc m
+      cases hs : se c with
+      | none => simp [hs] at h
+      | some b =>
+        cases b with
+        | false =>
+          simp only [hs, Option.some.injEq] at h; subst h
+          simp only [List.mem_cons, ih]
+          constructor
+          · rintro (rfl | h)
+            · exact ⟨Or.inl rfl, hs⟩
+            · exact ⟨Or.inr h.1, h.2⟩
+          · rintro ⟨rfl | h, h2⟩
+            · exact Or.inl rfl
+            · exact Or.inr ⟨h, h2⟩
+        | true =>
+          simp only [hs, Option.some.injEq] at h; subst h
+          rw [ih]
+          constructor
+          · rintro ⟨h1, h2⟩; exact ⟨List.mem_cons_of_mem _ h1, h2⟩
+          · rintro ⟨h1, h2⟩
+            rcases List.mem_cons.mp h1 with rfl | h1
+            · rw [hs] at h2; simp at h2
+            · exact ⟨h1, h2⟩
+
+
+theorem joinSlash_inj : ∀ (a b : List Name), gpath a = true → gpath b = true → joinSlash a = joinSlash b → a = b
+  | [], [], _, _, _ => rfl
+  | [], c :: cs, _, gb, e => by
+    exact absurd e.symm (joinSlash_ne_nil (c :: cs) (by simp) gb)
+  | c :: cs, [], ga, _, e => by
+    exact absurd e (joinSlash_ne_nil (c :: cs) (by simp) ga)
+  | c :: cs, d :: ds, ga, gb, e => by
+    have hc := gname_noslash (gpath_cons ga).1
+    have hd := gname_noslash (gpath_cons gb).1
+    rw [joinSlash_cons d ds] at e
+    cases ds with
+    | nil =>
+      simp only [List.isEmpty_nil, if_true] at e
+      obtain ⟨e1, e2⟩ := split_first c cs d [] hc hd (Or.inl rfl) (by simpa using e)
+      rcases e2 with ⟨e3, _⟩ | ⟨_, e4⟩
+      · rw [e1, e3]
+      · simp at e4
+    | cons d' ds' =>
+      simp only [List.isEmpty_cons, Bool.false_eq_true, if_false] at e
+      obtain ⟨e1, e2⟩ := split_first c cs d ('/' :: joinSlash (d' :: ds')) hc hd (Or.inr ⟨_, rfl⟩) e
+      rcases e2 with ⟨_, e3⟩ | ⟨_, e4⟩
+      · simp at e3
+      · simp only [List.cons.injEq, true_and] at e4
+        rw [← e1, joinSlash_inj cs (d' :: ds') (gpath_cons ga).2 (gpath_cons gb).2 e4.symm]
+
+
+theorem inDirs_componentwise (d q : List Name) (gd : gpath d = true) (gq : gpath q = true)
+    (hd : d ≠ []) (hq : q ≠ []) :
+    isInDirectories (joinSlash q) [joinSlash d] = d.isPrefixOf q := by
+  simp only [isInDirectories, List.any_cons, List.any_nil, Bool.or_false]
+  rw [Bool.eq_iff_iff, Bool.or_eq_true, List.isPrefixOf_iff_prefix, beq_iff_eq, List.isPrefixOf_iff_prefix]
+  constructor
+  · intro h
+    obtain ⟨k, hk, e⟩ := compMatch_of_slash q (joinSlash d) hq (gpath_good gq)
+      (by rcases h with h | h
+          · exact Or.inr h
+          · exact Or.inl h.symm)
+    have gt : gpath (q.take (k + 1)) = true := by
+      simp only [gpath, List.all_eq_true] at gq ⊢
+      exact fun x hx => gq x (List.mem_of_mem_take hx)
+    rw [joinSlash_inj d _ gd gt e]
+    exact List.take_prefix _ _
+  · rintro ⟨t, rfl⟩
+    cases t with
+    | nil => right; simp
+    | cons c t' =>
+      left
+      rw [joinSlash_append d (c :: t') hd (by simp)]
+      exact ⟨joinSlash (c :: t'), by simp⟩
+
 end PlzVerif.Glob
